@@ -58,7 +58,7 @@ type wgen struct {
 	ext    map[string]*spec.Spec
 }
 
-var idPool = []string{"A", "B", "C", "D"}
+var idPool = []string{"A", "AB", "B", "C"} // one ID is a prefix of another
 
 func (g *wgen) leaf() *spec.Spec {
 	switch rapid.IntRange(0, 3).Draw(g.t, "leafKind") {
@@ -159,7 +159,13 @@ func (g *wgen) scope(depth int, allowNS bool) *spec.Spec {
 				}
 			case 7:
 				// an object written in place, directly or as list item / map value
-				switch rapid.IntRange(0, 2).Draw(g.t, "inlineWhere") {
+				switch rapid.IntRange(0, 4).Draw(g.t, "inlineWhere") {
+				case 3:
+					// a one-property wrapper around a reference: the single-property shorthand (a lone non-map value)
+					// must work through the reference exactly as it does through the object written in place
+					pt = &spec.Spec{Kind: spec.KObject, ID: fmt.Sprintf("W%d", g.marker), Props: []spec.Prop{{Name: "only", Type: g.refTo(ids, allowNS)}}}
+				case 4:
+					pt = &spec.Spec{Kind: spec.KList, Items: &spec.Spec{Kind: spec.KObject, ID: fmt.Sprintf("W%d", g.marker), Props: []spec.Prop{{Name: "only", Type: g.refTo(ids, allowNS)}}}, Max: spec.P(int64(2))}
 				case 0:
 					pt = g.inlineObject(ids, allowNS)
 				case 1:
@@ -181,7 +187,7 @@ func genWorld(t *rapid.T) World {
 	g := &wgen{t: t, ext: map[string]*spec.Spec{}}
 	nExt := rapid.IntRange(0, 2).Draw(t, "nExt")
 	for i := 0; i < nExt; i++ {
-		name := []string{"x", "y"}[i]
+		name := []string{"x", "xy"}[i] // one namespace name is a prefix of the other
 		sc := g.scope(2, false) // external scopes: flat-ish, no named references of their own
 		g.ext[name] = sc
 	}
